@@ -46,7 +46,7 @@ def sparse_table(rng, nx, ny, den):
 
 def gen(rng, tier):
     out = []
-    nrand = 4 if tier == "quick" else 300
+    nrand = 2 if tier == "quick" else 300
     gid = 0
     ex = EXAMPLE
     c1 = [([x / 16 for x in b], u / 16) for b, u in ex[0]]
@@ -58,7 +58,7 @@ def gen(rng, tier):
             for n2 in (2, 3):
                 for ny in (2, 3):
                     for i in range(nrand):
-                        floaty = i % 4 == 3
+                        floaty = (i % 4 == 3) if tier != "quick" else (i == 1 and ty == "f64" and ny == 2)
                         den = rng.choice([8, 16, 64])
                         c1 = table(rng, ty, n1, ny, "float" if floaty else "grid")
                         c2 = table(rng, ty, n2, ny, "float" if floaty else "grid")
@@ -67,7 +67,7 @@ def gen(rng, tier):
                         out += mk(ty, n1, n2, ny, c1, c2, mkd(n1), mkd(n2), mkd(ny), "float" if floaty else "grid", gid)
                     # structured zeros: candidates filtered by the exact model
                     cands = []
-                    for i in range(nrand * 5):
+                    for i in range(nrand * 4):
                         den = rng.choice([4, 8])
                         gid += 1
                         cands.append(mk(ty, n1, n2, ny, sparse_table(rng, n1, ny, den), sparse_table(rng, n2, ny, den),
